@@ -124,6 +124,7 @@ func (l *v6Leg) list(calls []dag.VerifC06Call, note string) string {
 				res = "panic:list"
 			}
 		}()
+		defer dag.VerifC06Watch("list " + note)()
 		err := l.p.handleTransactionList(context.Background(), connection, env)
 		switch {
 		case err == nil && l.sent > before:
@@ -163,6 +164,7 @@ func (l *v6Leg) payload(ref string, pid int, note string) string {
 				res = "panic:payload"
 			}
 		}()
+		defer dag.VerifC06Watch("payload " + note)()
 		err := l.p.handleTransactionPayload(context.Background(), l.conn(), env)
 		switch {
 		case err == nil:
